@@ -97,7 +97,7 @@ func TestC15(t *testing.T) {
 					}
 				}
 				if info.nontrivial && r.WantSample(hkey) {
-					r.Sample(map[string]interface{}{"history_len": len(hist), "last_step": step.Kind, "last_doc": core.Preview(step.In), "kept_results": len(run.kept)})
+					r.Sample(map[string]interface{}{"history": describeSteps(hist), "kept_results": len(run.kept)})
 				}
 				if err != nil {
 					cc := &core.Case{Prop: "C15", Kind: "history", Steps: append([]core.Case(nil), hist...)}
